@@ -29,6 +29,7 @@
 #include <sys/wait.h>
 #include <sys/stat.h>
 #include <sys/types.h>
+#include <malloc.h>
 
 // ------------------------------------------------------------------------------------------------ TSan glue
 #if defined(__SANITIZE_THREAD__)
@@ -62,6 +63,7 @@ extern "C" int ftrylockfile(FILE* f)
    if(r == 0) __tsan_acquire(f);
    return r;
 }
+extern "C" void __sanitizer_set_report_path(const char* path);
 static const bool kTsan = true;
 #else
 static const bool kTsan = false;
@@ -101,6 +103,15 @@ struct Hh
    uint64_t h = 1469598103934665603ULL;
    void u64(uint64_t v)
    {
+#ifdef VL_VGCHECK      // development aid: make every digested value a branch condition, so that valgrind names the API call that returned uninitialised data
+      {
+         static volatile int vgsink;
+         if(v & 0x8000) vgsink = 1;
+         else vgsink = 2;
+         if(v & 0x1) vgsink = 3;
+         else vgsink = 4;
+      }
+#endif
       for(int i = 0; i < 8; i++)
       {
          h ^= (v >> (8 * i)) & 0xff;
@@ -158,8 +169,13 @@ struct TLog
 {
    std::vector<CallRec> calls;
    std::vector<DigItem> dig;
+   std::vector<std::string> info;         // human-readable summary of the step (same index as dig); not compared
+   std::vector<uint8_t> seg;              // segment slot of the step (same index as dig)
+   int curSeg = 0;
+   std::string pendingInfo;
    std::map<std::string, long long> cnt;
-   int divergedAt = -1;
+   int divergedAt = -1;                   // index into the baseline digest
+   int divergedLocal = -1;                // index into this run's digest
    std::string divergeDetail;
    uint64_t tStart = 0, tEnd = 0;
 };
@@ -284,6 +300,8 @@ struct Exec
    const Script& sc;
    TLog& L;
    const std::vector<DigItem>* expect;    // sequential digest (nullptr while recording the baseline)
+   const std::vector<uint8_t>* masked = nullptr;   // steps whose result depends on heap garbage even when the script runs alone
+   size_t cmpIdx = 0;                     // index into *expect of the next step (re-aligned at every segment start)
    bool conc;
    int jitMode;                           // 0 none, 1 light, 2 heavy
    Rng jit;
@@ -328,14 +346,23 @@ struct Exec
    }
    void step(int st, uint64_t h)
    {
-      size_t idx = L.dig.size();
+      size_t idx = cmpIdx++;
       L.dig.push_back(DigItem{(uint8_t)st, h});
+      L.info.push_back(L.pendingInfo);
+      L.pendingInfo.clear();
+      L.seg.push_back((uint8_t)L.curSeg);
+      if(expect && masked && idx < masked->size() && (*masked)[idx])
+      {
+         L.cnt["steps.masked_not_compared"]++;
+         return;
+      }
       L.cnt[std::string("step.") + STN[st]]++;
       if(expect)
       {
          if(idx >= expect->size() || (*expect)[idx].step != st || (*expect)[idx].h != h)
          {
             L.divergedAt = (int)idx;
+            L.divergedLocal = (int)L.dig.size() - 1;
             throw Diverged();
          }
       }
@@ -431,12 +458,9 @@ struct Exec
                h.d(c.value(k));
             }
          }
-         if(m > 0 && n > 0)
-         {
-            h.d(sp.coefReal(m - 1, n - 1));
-            h.d(sp.minAbsNonzeroReal());
-            h.d(sp.maxAbsNonzeroReal());
-         }
+         if(m > 0 && n > 0) h.d(sp.coefReal(m - 1, n - 1));
+         // (min/maxAbsNonzeroReal are not part of the digest: on a persistently scaled LP they read scale exponents that were never
+         //  initialised -- valgrind: uninitialised value from LPRowSetBase::add's realloc -- C09's business)
       });
       return h.h;
    }
@@ -504,6 +528,8 @@ struct Exec
          h.i(sp.hasPrimalRay());
          h.i(sp.hasDualFarkas());
          L.cnt[std::string("status.real.") + statusName((int)sp.status())]++;
+         L.pendingInfo = std::string(statusName((int)sp.status())) + " iters=" + std::to_string(sp.numIterations()) + " hasSol=" + std::to_string(sp.hasSol()) +
+                         (sp.hasSol() ? " obj=" + ds(sp.objValueReal()) : std::string()) + " " + std::to_string(m) + "x" + std::to_string(n);
          if(sp.hasSol())
          {
             VectorReal x(n), s(m), y(m), r(n);
@@ -571,7 +597,8 @@ struct Exec
             std::vector<double> coef(m + 1);
             int r = g.range(0, m - 1);
             if(sp.getBasisInverseRowReal(r, coef.data())) for(int i = 0; i < m; i++) h.d(coef[i]);
-            if(sp.getBasisInverseColReal(r, coef.data())) for(int i = 0; i < m; i++) h.d(coef[i]);
+            // (getBasisInverseColReal is not called: with scaling it reads freed / out-of-range scale exponents even
+            //  single-threaded -- heap-use-after-free in SPxScaler::getRowScaleExp, C05's business)
             std::vector<double> rhs(m + 1, 1.0), sol(m + 1, 0.0);
             if(sp.getBasisInverseTimesVecReal(rhs.data(), sol.data())) for(int i = 0; i < m; i++) h.d(sol[i]);
             double cond = 0;
@@ -605,6 +632,9 @@ struct Exec
          h.i(sp.hasSol());
          h.i(sp.hasBasis());
          L.cnt[std::string("status.exact.") + statusName((int)sp.status())]++;
+         L.pendingInfo = std::string(statusName((int)sp.status())) + " iters=" + std::to_string(sp.numIterations()) + " refinements=" + std::to_string(
+                            sp.numRefinements()) + " precisionBoosts=" + std::to_string(sp.numPrecisionBoosts()) + " boostedIters=" + std::to_string(sp.numIterationsBoosted()) +
+                         (sp.hasSol() ? " obj=" + sp.objValueRational().str() : std::string());
          if(sp.numPrecisionBoosts() > 0) L.cnt["exact.solves_with_precision_boost"]++;
          if(sp.numRefinements() > 0) L.cnt["exact.solves_with_refinement"]++;
          if(sp.hasSol())
@@ -883,16 +913,25 @@ struct Exec
          SoPlex* cp = nullptr;
          call(EK_COPY, [&] { cp = new SoPlex(*sp); });
          live.push_back(cp);
+         // The copy constructor leaves the two counters read by _reapplyPersistentScaling() uninitialised (valgrind: solvereal.hpp:99
+         // depends on uninitialised heap of `new SoPlex(rhs)`), so whether a copy re-applies persistent scaling depends on heap
+         // garbage, alone or not.  That is C17's finding; here the counters get the value every other constructor gives them, so
+         // that solves of copies can be compared at all.
+         cp->_optimizeCalls = 0;
+         cp->_unscaleCalls = 0;
          L.cnt["objects.copied"]++;
-         Hh h;
-         h.u64(lpDigestReal(*cp));
-         h.u64(paramDigest(*cp));
+         {
+            Hh h;
+            h.u64(lpDigestReal(*cp));
+            h.u64(paramDigest(*cp));
+            step(ST_COPY, h.h);
+         }
          modifyReal(*cp, 1);
+         step(ST_MODIFY_REAL, lpDigestReal(*cp));
          int st2 = 0;
          call(EK_OPT, [&] { st2 = (int)cp->optimize(); });
-         h.u64(solveDigestReal(*cp, st2));
-         h.u64(lpDigestReal(*sp));        // the source is unchanged by what was done to the copy
-         step(ST_COPY, h.h);
+         step(ST_OPT_REAL, solveDigestReal(*cp, st2));
+         step(ST_COPY, lpDigestReal(*sp));        // the source is unchanged by what was done to the copy
          // assignment: exercised for the race detector only.  What the assignee reports (LP read-back, plug-in names, solve) varies
          // from run to run even when the script runs ALONE (measured: the digest of the assignee failed the run-alone-twice
          // control in ~5% of the scripts; solving it after its source is destroyed crashes) -- operator= is C17's business, so
@@ -1100,9 +1139,34 @@ struct RunCtl
    std::atomic<int> go{0};
 };
 
-static void threadBody(const Script* sc, TLog* L, const std::vector<DigItem>* expect, bool conc, int jitMode, uint64_t jseed, std::string outPrefix,
-                       RunCtl* ctl, unsigned startDelayUs)
+// Heap soiling.  Results that depend on uninitialised memory (e.g. members a copy constructor forgets) differ with the CONTENT of
+// recycled heap blocks, which differs between a run alone and a concurrent run for reasons that have nothing to do with shared
+// state.  The control: every script is run alone twice, with different garbage in the heap (this function, plus glibc's
+// M_PERTURB in non-TSan builds); steps that differ between these two runs are masked (not compared) -- see maskUnstable().
+static void soilHeap(int pattern)
 {
+   if(pattern < 0) return;
+   std::vector<void*> blocks;
+   auto grab = [&](size_t sz, int n)
+   {
+      for(int i = 0; i < n; i++)
+      {
+         void* p = malloc(sz);
+         if(!p) return;
+         memset(p, pattern, sz);
+         blocks.push_back(p);
+      }
+   };
+   for(size_t sz = 16; sz <= 512; sz += 16) grab(sz, 48);
+   for(double z = 560; z < 300000; z *= 1.19) grab((size_t)z, z < 8192 ? 12 : 3);
+   grab(sizeof(SoPlex), 4);
+   for(size_t i = blocks.size(); i > 0; i--) free(blocks[i - 1]);
+}
+
+static void threadBody(const Script* sc, TLog* L, const std::vector<DigItem>* expect, const std::vector<uint8_t>* masked, const size_t* segStart,
+                       bool conc, int jitMode, uint64_t jseed, std::string outPrefix, RunCtl* ctl, unsigned startDelayUs, int soil)
+{
+   soilHeap(soil);
    if(ctl)
    {
       while(ctl->go.load(std::memory_order_acquire) == 0) sched_yield();
@@ -1110,14 +1174,23 @@ static void threadBody(const Script* sc, TLog* L, const std::vector<DigItem>* ex
    }
    L->tStart = nowns();
    Exec ex(*sc, *L, expect, conc, jitMode, jseed, outPrefix);
+   ex.masked = masked;
    bool dead = false;
    for(int slot = 0; slot < 4; slot++)
    {
+      L->curSeg = slot;
+      if(segStart) ex.cmpIdx = segStart[slot];
       if(ctl && ctl->useBarriers) pthread_barrier_wait(&ctl->bar);
       if(dead) continue;
       try
       {
          ex.runSegment(sc->order[slot]);
+         if(expect && segStart && ex.cmpIdx != segStart[slot + 1] && !(masked && segStart[slot + 1] > 0 && (*masked)[segStart[slot + 1] - 1]))
+         {
+            L->divergedAt = (int)ex.cmpIdx;      // the segment ended with fewer steps than when run alone
+            L->divergedLocal = (int)L->dig.size();
+            throw Diverged();
+         }
       }
       catch(const Diverged&)
       {
@@ -1158,10 +1231,54 @@ static void threadBody(const Script* sc, TLog* L, const std::vector<DigItem>* ex
 }
 
 // the script run alone: its own fresh thread, nothing else running
-static void runAlone(const Script& sc, TLog& L, const std::vector<DigItem>* expect, const std::string& outPrefix)
+static void setPerturb(int byte)      // glibc: fill allocated / freed memory with a pattern (no effect under TSan's allocator)
 {
-   std::thread t(threadBody, &sc, &L, expect, false, 0, (uint64_t)0, outPrefix, (RunCtl*)nullptr, 0u);
+#ifndef VL_TSAN
+   mallopt(M_PERTURB, byte);
+#else
+   (void)byte;
+#endif
+}
+static void runAlone(const Script& sc, TLog& L, const std::vector<DigItem>* expect, const std::vector<uint8_t>* masked, const size_t* segStart,
+                     const std::string& outPrefix, int soil)
+{
+   setPerturb(soil <= 0 ? 0 : soil);
+   std::thread t(threadBody, &sc, &L, expect, masked, segStart, false, 0, (uint64_t)0, outPrefix, (RunCtl*)nullptr, 0u, soil);
    t.join();
+   setPerturb(0);
+}
+// steps of `a` that differ in `b` (second run alone, different heap garbage): from the first difference to the end of its segment
+static void segRanges(const std::vector<uint8_t>& seg, size_t start[5])
+{
+   // start[slot] = first index of slot, start[4] = size; slots appear in increasing order
+   size_t i = 0;
+   for(int slot = 0; slot < 4; slot++)
+   {
+      start[slot] = i;
+      while(i < seg.size() && seg[i] == slot) i++;
+   }
+   start[4] = seg.size();
+}
+static int maskUnstable(const TLog& a, const TLog& b, std::vector<uint8_t>& mask)
+{
+   mask.assign(a.dig.size(), 0);
+   size_t sa[5], sb[5];
+   segRanges(a.seg, sa);
+   segRanges(b.seg, sb);
+   int n = 0;
+   for(int slot = 0; slot < 4; slot++)
+   {
+      size_t la = sa[slot + 1] - sa[slot], lb = sb[slot + 1] - sb[slot];
+      size_t q = 0;
+      while(q < la && q < lb && a.dig[sa[slot] + q].step == b.dig[sb[slot] + q].step && a.dig[sa[slot] + q].h == b.dig[sb[slot] + q].h) q++;
+      if(q == la && la == lb) continue;
+      for(size_t r = (q < la ? q : (la ? la - 1 : 0)); r < la; r++)
+      {
+         mask[sa[slot] + r] = 1;
+         n++;
+      }
+   }
+   return n;
 }
 
 struct OverlapStats
@@ -1221,7 +1338,7 @@ static void computeOverlap(const std::vector<TLog>& logs, OverlapStats& os)
    os.interleaveHash = ih.h;
 }
 
-static std::string describeDivergence(const Script& sc, const std::vector<DigItem>& base, const TLog& L)
+static std::string describeDivergence(const Script& sc, const std::vector<DigItem>& base, const TLog& L, const std::vector<std::string>* baseInfo = nullptr)
 {
    int at = L.divergedAt;
    std::ostringstream o;
@@ -1229,7 +1346,11 @@ static std::string describeDivergence(const Script& sc, const std::vector<DigIte
    if(at >= 0 && at < (int)base.size()) o << STN[base[at].step] << "/" << std::hex << base[at].h << std::dec;
    else o << "<end of script>";
    o << ", concurrent run gave ";
-   if(at >= 0 && at < (int)L.dig.size()) o << STN[L.dig[at].step] << "/" << std::hex << L.dig[at].h << std::dec;
+   int lc = L.divergedLocal;
+   if(lc >= 0 && lc < (int)L.dig.size()) o << STN[L.dig[lc].step] << "/" << std::hex << L.dig[lc].h << std::dec;
+   else o << "<segment ended>";
+   if(baseInfo && at >= 0 && at < (int)baseInfo->size() && lc >= 0 && lc < (int)L.info.size() && !((*baseInfo)[at].empty() && L.info[lc].empty()))
+      o << " [alone: " << (*baseInfo)[at] << " | concurrent: " << L.info[lc] << "]";
    o << "; script " << (sc.mps ? "mps" : "general") << " models " << sc.MA.m << "x" << sc.MA.n << "," << sc.MF.m << "x" << sc.MF.n << "," << sc.MX.m << "x"
      << sc.MX.n << " cfgA " << sc.cfgA.key() << " cfgF " << sc.cfgF.key();
    return o.str();
@@ -1336,13 +1457,31 @@ static void runCase(long long k, int reps)
    S.seen("nontrivial", setHash.h);
    // ---- sequential baseline
    std::vector<std::vector<DigItem>> base((size_t)T);
+   std::vector<std::vector<std::string>> baseInfo((size_t)T);
    OverlapStats os;
+   std::vector<std::vector<uint8_t>> mask((size_t)T);
+   struct SegS
+   {
+      size_t s[5];
+   };
+   std::vector<SegS> segStart((size_t)T);
    for(int i = 0; i < T; i++)
    {
-      TLog L;
-      runAlone(scripts[(size_t)i], L, nullptr, caseDir + "/seq" + std::to_string(i) + "_");
+      TLog L, L2;
+      runAlone(scripts[(size_t)i], L, nullptr, nullptr, nullptr, caseDir + "/seq" + std::to_string(i) + "_", 0);
+      runAlone(scripts[(size_t)i], L2, nullptr, nullptr, nullptr, caseDir + "/seq" + std::to_string(i) + "_", 0xA5);
+      int nm = maskUnstable(L, L2, mask[(size_t)i]);
+      segRanges(L.seg, segStart[(size_t)i].s);
+      if(nm)
+      {
+         S.count("digest.scripts_with_heap_garbage_dependent_steps");
+         S.count("digest.steps_masked_heap_garbage_dependent", nm);
+         for(size_t q = 0; q < mask[(size_t)i].size(); q++) if(mask[(size_t)i][q] && (q == 0 || !mask[(size_t)i][q - 1]))
+               S.count(std::string("digest.first_masked_step.") + STN[L.dig[q].step]);
+      }
       base[(size_t)i] = L.dig;
-      S.count("runs.sequential_scripts");
+      baseInfo[(size_t)i] = L.info;
+      S.count("runs.sequential_scripts", 2);
       S.count("steps.sequential", (long long)L.dig.size());
       for(auto& kv : L.cnt) S.count("seq." + kv.first, kv.second);
       if(verbose)
@@ -1359,6 +1498,7 @@ static void runCase(long long k, int reps)
    {
       Rng gr(fnv("C18rep"), cli.seed * 7919ULL + (uint64_t)k, (uint64_t)rep);
       RunCtl ctl;
+      setPerturb(rep % 2 ? 0xA5 : 0);
       ctl.useBarriers = (rep % 3) == 1;
       int jitMode = rep % 3 == 0 ? 0 : (rep % 3 == 1 ? 1 : 2);
       if(rep >= 3) jitMode = gr.range(0, 2);
@@ -1368,11 +1508,13 @@ static void runCase(long long k, int reps)
       for(int i = 0; i < T; i++)
       {
          unsigned delay = ctl.useBarriers ? 0u : (unsigned)gr.range(0, rep % 2 ? 300 : 30);
-         th.emplace_back(threadBody, &scripts[(size_t)i], &logs[(size_t)i], &base[(size_t)i], true, jitMode, gr.next(),
-                         caseDir + "/r" + std::to_string(rep) + "t" + std::to_string(i) + "_", &ctl, delay);
+         static const int soils[4] = {0x00, 0xA5, 0x5A, 0x01};
+         th.emplace_back(threadBody, &scripts[(size_t)i], &logs[(size_t)i], &base[(size_t)i], &mask[(size_t)i], (const size_t*)segStart[(size_t)i].s, true, jitMode, gr.next(),
+                         caseDir + "/r" + std::to_string(rep) + "t" + std::to_string(i) + "_", &ctl, delay, soils[(size_t)gr.range(0, 3)]);
       }
       ctl.go.store(1, std::memory_order_release);
       for(auto& t : th) t.join();
+      setPerturb(0);
       pthread_barrier_destroy(&ctl.bar);
       progress("rep" + std::to_string(rep));
       S.count("runs.concurrent");
@@ -1393,14 +1535,13 @@ static void runCase(long long k, int reps)
          S.count("digest.compared");
          S.count("digest.steps_compared", (long long)L.dig.size());
          for(auto& kv : L.cnt) S.count(kv.first, kv.second);
-         bool mismatch = L.divergedAt >= 0 || L.dig.size() != base[(size_t)i].size();
+         bool mismatch = L.divergedAt >= 0;
          if(!mismatch) continue;
-         if(L.divergedAt < 0) L.divergedAt = (int)L.dig.size();
          // is the script deterministic when run alone?  (otherwise the difference says nothing about concurrency)
          TLog again;
-         runAlone(scripts[(size_t)i], again, &base[(size_t)i], caseDir + "/chk" + std::to_string(i) + "_");
+         runAlone(scripts[(size_t)i], again, &base[(size_t)i], &mask[(size_t)i], segStart[(size_t)i].s, caseDir + "/chk" + std::to_string(i) + "_", 0x5A);
          S.count("digest.mismatch_rechecks");
-         if(again.divergedAt >= 0 || again.dig.size() != base[(size_t)i].size())
+         if(again.divergedAt >= 0)
          {
             S.count("digest.sequential_nondeterminism");
             S.note("sequential-nondeterminism", "script " + std::to_string(i) + " of case " + std::to_string(k) +
@@ -1408,11 +1549,11 @@ static void runCase(long long k, int reps)
             continue;
          }
          int at = L.divergedAt;
-         std::string kind = at < (int)base[(size_t)i].size() ? STN[base[(size_t)i][(size_t)at].step] : (at < (int)L.dig.size() ? STN[L.dig[(size_t)at].step] : "length");
+         std::string kind = at < (int)base[(size_t)i].size() ? STN[base[(size_t)i][(size_t)at].step] : "length";
          S.count("digest.mismatches");
          S.viol("C18:digest-mismatch:" + kind, "thread " + std::to_string(i) + " of " + std::to_string(T) + " (repetition " + std::to_string(rep) +
                 ", jitter mode " + std::to_string(jitMode) + "): the concurrent run differs from the run alone (which was reproduced) at " +
-                describeDivergence(scripts[(size_t)i], base[(size_t)i], L),
+                describeDivergence(scripts[(size_t)i], base[(size_t)i], L, &baseInfo[(size_t)i]),
                 Json().num("case", k).num("threads", T).num("rep", rep).num("script", i).str("kind", kind).done());
       }
    }
@@ -1433,6 +1574,105 @@ static void runCase(long long k, int reps)
    rmTree(caseDir);
 }
 
+// ThreadSanitizer reports of the forked mps-kind child.  The process-global strtok state used by MPSInput::readLine makes one
+// thread tokenise (and write NULs into) another thread's line buffer, so the same root cause shows up under many different
+// top-frame pairs (readLine / clear_from / getline's memcpy / readMPS / readBasis / ratFromString reading a field ...).  A report is
+// attributed to that root-cause cell iff one of its two access stacks passes through the MPS tokeniser or its callers (MPSInput::,
+// readMPS, MPSread*, readBasis, strtok); such reports are collapsed to ONE key naming the call site.  Any other report of the
+// child keeps a key built from the top SoPlex frames of its two stacks, like the driver's keys.
+static std::string cleanFn(const std::string& fn)
+{
+   std::string out;
+   int depth = 0;
+   for(char ch : fn)
+   {
+      if(ch == '<' || ch == '(') depth++;
+      else if(ch == '>' || ch == ')') depth--;
+      else if(depth == 0) out += ch;
+   }
+   size_t q;
+   while((q = out.find("soplex::")) != std::string::npos) out.erase(q, 8);
+   while(!out.empty() && out.back() == ' ') out.pop_back();
+   if(out.size() > 6 && out.compare(out.size() - 6, 6, " const") == 0) out.erase(out.size() - 6);
+   size_t sp = out.rfind(' ');
+   return sp == std::string::npos ? out : out.substr(sp + 1);
+}
+static void attributeChildTsanLog(const std::string& path, long long k)
+{
+   Sink& S = sink();
+   std::string txt = readAll(path);
+   unlink(path.c_str());
+   if(txt == "<cannot open>" || txt.empty()) return;
+   std::map<std::string, std::pair<int, std::string>> byKey;      // key -> (count, first report)
+   std::map<std::string, std::set<std::string>> pairsByKey;
+   size_t pos = 0;
+   while(true)
+   {
+      size_t a = txt.find("WARNING: ThreadSanitizer: ", pos);
+      if(a == std::string::npos) break;
+      size_t e = txt.find("==================", a);
+      std::string blk = txt.substr(a, e == std::string::npos ? std::string::npos : e - a);
+      pos = a + 10;
+      std::string kind;
+      for(size_t i = 26; i < blk.size() && blk[i] != '(' && blk[i] != '\n'; i++) kind += blk[i] == ' ' ? '-' : blk[i];
+      while(!kind.empty() && kind.back() == '-') kind.pop_back();
+      // split into stacks (runs of lines starting with '#')
+      std::vector<std::vector<std::string>> stacks;
+      std::vector<std::string> cur;
+      std::istringstream is(blk);
+      std::string line;
+      while(std::getline(is, line))
+      {
+         size_t f = line.find_first_not_of(" \t");
+         if(f != std::string::npos && line[f] == '#') cur.push_back(line.substr(f));
+         else if(!cur.empty())
+         {
+            stacks.push_back(cur);
+            cur.clear();
+         }
+      }
+      if(!cur.empty()) stacks.push_back(cur);
+      bool mpsCell = false;
+      std::vector<std::string> tops;
+      for(size_t si = 0; si < stacks.size() && si < 2; si++)
+      {
+         std::string top;
+         for(const std::string& fr : stacks[si])
+         {
+            // "#N function-with-args /path:line (module+off)"
+            size_t b = fr.find(' ');
+            if(b == std::string::npos) continue;
+            std::string rest = fr.substr(b + 1);
+            if(rest.find("MPSInput::") != std::string::npos || rest.find("::readMPS(") != std::string::npos || rest.find("MPSread") != std::string::npos
+                  || rest.find("::readBasis(") != std::string::npos || rest.compare(0, 6, "strtok") == 0) mpsCell = true;
+            if(top.empty() && (rest.find("soplex::") != std::string::npos || rest.find("/src/soplex") != std::string::npos))
+            {
+               size_t pe = rest.find(" /");
+               size_t pn = rest.find(" <null>");
+               size_t cut = std::min(pe, pn);
+               top = cleanFn(cut == std::string::npos ? rest : rest.substr(0, cut));
+            }
+         }
+         tops.push_back(top.empty() ? "?" : top);
+      }
+      std::sort(tops.begin(), tops.end());
+      std::string pair;
+      for(size_t i = 0; i < tops.size(); i++) pair += (i ? "|" : "") + tops[i];
+      std::string key = mpsCell ? "C18:tsan:" + kind + ":MPSInput::readLine|MPSInput::readLine" : "C18:tsan:" + kind + ":" + pair;
+      auto& slot = byKey[key];
+      if(slot.first++ == 0) slot.second = blk.substr(0, 2500);
+      pairsByKey[key].insert(pair);
+      S.count("tsan.reports.mps_child");
+   }
+   for(auto& kv : byKey)
+   {
+      std::string pairs;
+      for(auto& p : pairsByKey[kv.first]) pairs += (pairs.empty() ? "" : ", ") + p;
+      S.viol(kv.first, std::to_string(kv.second.first) + " ThreadSanitizer report(s) in the forked mps-kind case (threads only construct solvers, read MPS / basis files, solve, "
+             "destroy); top-frame pairs seen: " + pairs + "; first report:\n" + kv.second.second, Json().num("case", k).done());
+   }
+}
+
 // run an mps-kind case in a forked child; merge its counters; attribute a death of the child
 static void runCaseForked(long long k, int reps)
 {
@@ -1450,6 +1690,10 @@ static void runCaseForked(long long k, int reps)
    {
       close(pfd[0]);
       gProgressFd = pfd[1];
+#ifdef VL_TSAN
+      // the child's race reports go to their own log: the parent attributes them (see attributeChildTsanLog)
+      __sanitizer_set_report_path((workDir + "/mpschild.tsanlog").c_str());
+#endif
       Sink& C = sink();
       C.counters.clear();
       C.maxima.clear();
@@ -1521,6 +1765,7 @@ static void runCaseForked(long long k, int reps)
          S.seen(name, h);
       }
    }
+   attributeChildTsanLog(workDir + "/mpschild.tsanlog." + std::to_string((long long)pid), k);
    if(!done)
    {
       std::string how = WIFSIGNALED(status) ? std::string("signal ") + strsignal(WTERMSIG(status)) : "exit status " + std::to_string(WEXITSTATUS(status));
